@@ -85,7 +85,9 @@ def project(net, with_results=True, num=None):
     has_res = with_results and "res_junction" in net and len(net.res_junction) == len(net.junction)
     jt = net.junction
     for lab, row in jt.iterrows():
-        r = {"lab": int(lab), "svc": bool(row.in_service)}
+        r = {"lab": int(lab), "svc": bool(row.in_service), "h": int(round(float(row.height_m) * 1000)),
+             # oracle (DESIGN D2): ambient pressure at the junction's height from the documented barometric formula, 1e-9 bar ticks
+             "pamb": limbs(1.01325 * (1 - float(row.height_m) * 0.0065 / 288.15) ** 5.255, PSCALE)}
         if has_res:
             rr = net.res_junction.loc[lab]
             r["p"] = limbs(rr.p_bar, PSCALE)
@@ -108,7 +110,7 @@ def project(net, with_results=True, num=None):
                  "ca": bool(row["control_active"]) if "control_active" in df.columns else True,
                  "cj": int(row["controlled_junction"]) if tbl == "press_control" else 0,
                  "typ": str(row["type"]) if tbl in ("circ_pump_mass", "circ_pump_pressure") else "",
-                 "sec": int(row["sections"]) if tbl == "pipe" else 1}
+                 "sec": int(row["sections"]) if tbl == "pipe" else 1, "rn": 0, "rd": 0}
             # prescribed values (set-points) of the row, as ticks
             r["set1"], r["set2"] = NAN, NAN
             if tbl == "flow_control":
@@ -123,6 +125,11 @@ def project(net, with_results=True, num=None):
                 r["set2"] = limbs(row["p_flow_bar"], PSCALE)
             elif tbl == "compressor":
                 r["set1"] = limbs(row["pressure_ratio"], 1e6)
+                # the ratio as a fraction of small integers, if it is one exactly (else 0/0: the ratio clause does not apply)
+                from fractions import Fraction
+                fr = Fraction(float(row["pressure_ratio"])).limit_denominator(64)
+                exact = float(fr.numerator) / float(fr.denominator) == float(row["pressure_ratio"]) and 0 < fr.numerator <= 400
+                r["rn"], r["rd"] = (int(fr.numerator), int(fr.denominator)) if exact else (0, 0)
             if ok_res:
                 rr = rt.iloc[pos]
                 hyd = [float(rr[c]) for c in HYD_COLS_BASE if c in rt.columns]
@@ -182,7 +189,7 @@ def build(an, fluid="water", params=None):
     net = pp.create_empty_network(fluid=fluid)
     for j in an["J"]:
         pp.create_junction(net, pn_bar=params.get("pn", 5.0), tfluid_k=params.get("tn", 330.0) + params.get("tn_step", 0.0) * j["lab"],
-                           height_m=j.get("h", 0), index=j["lab"], in_service=j["svc"])
+                           height_m=(params.get("heights") or {}).get(j["lab"], j.get("h", 0)), index=j["lab"], in_service=j["svc"])
     # pipes first among the branches is NOT forced: creation order is the description's order,
     # except that pipe-valves need their pipe to exist.
     pending = []
@@ -204,6 +211,9 @@ def _create_branch(pp, net, e, params):
     if t == "pipe":
         pp.create_pipe_from_parameters(net, a, b, length_km=q.get("length_km", 0.2),
                                        inner_diameter_mm=q.get("d_mm", 80.0), k_mm=q.get("k_mm", 0.1),
+                                       # every second pipe is thick-walled (heat is lost over the outer surface), the others have no
+                                       # outer diameter entry at all (then the inner one counts)
+                                       outer_diameter_mm=q.get("do_mm", q.get("d_mm", 80.0) * 1.25 if lab % 2 == 1 else None),
                                        sections=e.get("sec", 1), u_w_per_m2k=q.get("u", 5.0),
                                        text_k=q.get("text", 283.0), index=lab, in_service=svc)
     elif t == "valve":
